@@ -314,13 +314,16 @@ CHECKS["C15"] = {
              "(after each Put the harness waits until that entry's callback has arrived at its first point, so every step runs with a known set of fired-but-not-completed expiries). Oracle after every step: the verif-tagged walk of the "
              "pool's lists finds <= capacity entries in total and <= key capacity per key (none at all for negative capacities) and no connection that is currently handed out; a taken connection was put and not handed out since, "
              "has the requested key, is not closed, not blocked, and its expiry has not fired. At the end (Pool.Close, all expiries released): every put connection was handed out xor closed, never handed out more often than put; no panic. "
-             "Non-trivial: an eviction happened, or an expiry callback was released in the middle of the history."),
+             "Non-trivial: an eviction happened, or an expiry callback was released in the middle of the history. "
+             "poolconn: the same ownership rules through the public wrapper (Pool.Get): histories of overlapping Invokes (each parked inside the fake connection until released), streams opened and ended, over two keys and small capacities; "
+             "no fake connection may ever serve two callers at once, no call may run on a connection the pool has closed, bounds hold after every step, and at the end every dialed connection is cached xor closed. Non-trivial: >= 2 calls overlapped and >= 2 connections were dialed."),
     "assumptions": ["expiry timers are real 1 ns timers whose callbacks park at verif scheduling points; 'fires in the middle of a Put' is not reachable (no fake clock), only 'fired and parked' and 'never fires'",
                     "a mismatch between the walked lists and the pool's own counters is recorded as a diagnostic label, not as a violation"],
     "subs": [
         {"test": "TestC15Pool", "prop": "C15/pool", "quick": 40000, "thorough": 2000000, "shards_quick": 16, "shards_thorough": 16},
+        {"test": "TestC15PoolConn", "prop": "C15/poolconn", "quick": 16000, "thorough": 600000, "shards_quick": 16, "shards_thorough": 16},
     ],
-    "floors": {"C15/pool": {"eviction": 0.3, "expiry_released_mid_history": 0.04, "expiry_fired_and_parked": 0.2}},
+    "floors": {"C15/pool": {"eviction": 0.3, "expiry_released_mid_history": 0.04, "expiry_fired_and_parked": 0.2}, "C15/poolconn": {"overlapping_calls": 0.3}},
 }
 
 CHECKS["C19"] = {
